@@ -461,6 +461,18 @@ func checkHist(h histCase) *vt.Fail {
 					}
 				}
 			}
+			// (time passes for the directories too: a sub-directory's own time stamp says when an entry was last created or
+			// removed in it, and it ages like everything else)
+			if subs, err := os.ReadDir(d); err == nil {
+				for _, e := range subs {
+					if e.IsDir() && len(e.Name()) == 2 {
+						p := filepath.Join(d, e.Name())
+						if st, err := os.Stat(p); err == nil {
+							os.Chtimes(p, st.ModTime().Add(-dt), st.ModTime().Add(-dt))
+						}
+					}
+				}
+			}
 			tp := filepath.Join(d, "trim.txt")
 			if st, err := os.Stat(tp); err == nil {
 				if trimState == "value" {
